@@ -6,6 +6,10 @@
  * and injects one fault at unit number FAULTFS_AT:
  *   FAULTFS_MODE=kill    perform the part of the write below the budget, then _exit(137)
  *                        (process death: what was written stays written, no destructor runs)
+ *   FAULTFS_MODE=killafter
+ *                        as kill, but a metadata operation at the fault point is performed first
+ *                        and the process dies right after it (the gap between a visible metadata
+ *                        operation and a following one the shim cannot see, e.g. a raw rename)
  *   FAULTFS_MODE=eio | enospc
  *                        short write up to the budget, then every later write to a watched file
  *                        fails with that errno (metadata operations keep working, as on a full disk)
@@ -30,7 +34,8 @@
 static pthread_mutex_t mu = PTHREAD_MUTEX_INITIALIZER;
 static long long units = 0;
 static long long fault_at = -1;
-static int mode = 0; /* 0 kill, 1 eio, 2 enospc */
+static int mode = 0; /* 0 kill, 1 eio, 2 enospc, 3 killafter */
+#define KILLMODE (mode == 0 || mode == 3)
 static int failing = 0;
 static char dir[PATH_MAX] = "";
 static size_t dirlen = 0;
@@ -78,6 +83,7 @@ static void init(void) {
     const char *m = getenv("FAULTFS_MODE");
     if (m && !strcmp(m, "eio")) mode = 1;
     if (m && !strcmp(m, "enospc")) mode = 2;
+    if (m && !strcmp(m, "killafter")) mode = 3;
     const char *l = getenv("FAULTFS_LOG");
     if (l) strncpy(logpath, l, sizeof logpath - 1);
     atexit(dump_log);
@@ -151,7 +157,7 @@ static long long budget(int fd, long long count, int *die, const char *kind) {
     if (allowed < 0) allowed = 0;
     units += allowed;
     account_ino(fd, allowed);
-    if (mode == 0) {
+    if (KILLMODE) {
         *die = 1;
         return allowed;
     }
@@ -246,71 +252,72 @@ ssize_t splice(int fd_in, off64_t *off_in, int fd_out, off64_t *off_out, size_t 
     return -1;
 }
 
-/* one metadata unit; returns 1 when the operation may proceed */
+/* one metadata unit; returns 1 when the process must die right after the operation */
 static int meta_unit(const char *kind, const char *name) {
+    int die_after = 0;
     pthread_mutex_lock(&mu);
     record(kind, 1, name);
     if (fault_at >= 0 && units == fault_at && mode == 0) _exit(137);
+    if (fault_at >= 0 && units == fault_at && mode == 3) die_after = 1;
     units += 1;
     pthread_mutex_unlock(&mu);
-    return 1;
+    return die_after;
 }
+#define META(cond, kind, name, call) \
+    do { \
+        int die_ = (cond) ? meta_unit(kind, name) : 0; \
+        int r_ = (call); \
+        if (die_) _exit(137); \
+        return r_; \
+    } while (0)
 
 int rename(const char *a, const char *b) {
     static int (*real)(const char *, const char *);
     if (!real) real = dlsym(RTLD_NEXT, "rename");
     init();
-    if (watched_path(b) || watched_path(a)) meta_unit("rename", b);
-    return real(a, b);
+    META(watched_path(b) || watched_path(a), "rename", b, real(a, b));
 }
 int renameat(int ad, const char *a, int bd, const char *b) {
     static int (*real)(int, const char *, int, const char *);
     if (!real) real = dlsym(RTLD_NEXT, "renameat");
     init();
-    if (watched_path(b) || watched_path(a)) meta_unit("renameat", b);
-    return real(ad, a, bd, b);
+    META(watched_path(b) || watched_path(a), "renameat", b, real(ad, a, bd, b));
 }
 int renameat2(int ad, const char *a, int bd, const char *b, unsigned int flags) {
     static int (*real)(int, const char *, int, const char *, unsigned int);
     if (!real) real = dlsym(RTLD_NEXT, "renameat2");
     init();
-    if (watched_path(b) || watched_path(a)) meta_unit("renameat2", b);
-    return real(ad, a, bd, b, flags);
+    META(watched_path(b) || watched_path(a), "renameat2", b, real(ad, a, bd, b, flags));
 }
 int link(const char *a, const char *b) {
     static int (*real)(const char *, const char *);
     if (!real) real = dlsym(RTLD_NEXT, "link");
     init();
-    if (watched_path(b)) meta_unit("link", b);
-    return real(a, b);
+    META(watched_path(b), "link", b, real(a, b));
 }
 int linkat(int ad, const char *a, int bd, const char *b, int flags) {
     static int (*real)(int, const char *, int, const char *, int);
     if (!real) real = dlsym(RTLD_NEXT, "linkat");
     init();
-    if (watched_path(b)) meta_unit("linkat", b);
-    return real(ad, a, bd, b, flags);
+    META(watched_path(b), "linkat", b, real(ad, a, bd, b, flags));
 }
 int unlink(const char *a) {
     static int (*real)(const char *);
     if (!real) real = dlsym(RTLD_NEXT, "unlink");
     init();
-    if (watched_path(a)) meta_unit("unlink", a);
-    return real(a);
+    META(watched_path(a), "unlink", a, real(a));
 }
 int unlinkat(int d, const char *a, int flags) {
     static int (*real)(int, const char *, int);
     if (!real) real = dlsym(RTLD_NEXT, "unlinkat");
     init();
-    if (watched_path(a)) meta_unit("unlinkat", a);
-    return real(d, a, flags);
+    META(watched_path(a), "unlinkat", a, real(d, a, flags));
 }
 int ftruncate64(int fd, off64_t len) {
     static int (*real)(int, off64_t);
     if (!real) real = dlsym(RTLD_NEXT, "ftruncate64");
     init();
-    if (watched_fd(fd)) meta_unit("ftruncate", NULL);
-    return real(fd, len);
+    META(watched_fd(fd), "ftruncate", NULL, real(fd, len));
 }
 int ftruncate(int fd, off_t len) { return ftruncate64(fd, len); }
 
